@@ -4,6 +4,11 @@ From DustDDS Require Import Base.Machine Base.Bytes Wire.WireModel Wire.WireProo
 Open Scope Z_scope.
 Ltac Zify.zify_post_hook ::= Z.div_mod_to_equations.
 
+Lemma pret_ok : forall A (a b : A) s s1, fst (pret a s) = Ok (b, s1) -> b = a /\ s1 = s.
+Proof. intros A a b s s1 H. unfold pret in H. cbn [fst] in H. inversion H; auto. Qed.
+Lemma ptick_ok : forall n u s s1, fst (ptick n s) = Ok (u, s1) -> s1 = s.
+Proof. intros n u s s1 H. unfold ptick in H. cbn [fst] in H. inversion H; auto. Qed.
+
 Lemma sumZ_app : forall a b, sumZ (a ++ b) = sumZ a + sumZ b.
 Proof. induction a; intros; cbn [app sumZ]; [lia|rewrite IHa; lia]. Qed.
 
@@ -20,15 +25,16 @@ Lemma read_param_ok : forall le s p s1, fst (read_param le s) = Ok (p, s1) ->
   len s = 4 + len (p_val p) + len s1 \/ (p_id p = PID_SENTINEL /\ len s = 4 + len s1).
 Proof.
   intros le s p s1. unfold read_param. cbv zeta. rewrite !shorter_spec.
-  destruct (Z.ltb_spec (len s) 4) as [L|L]; cbn [fst]; [discriminate|].
+  destruct (Z.ltb_spec (len s) 4) as [L|L]; [cbn [fst]; discriminate|].
+  assert (E4 : len s = 4 + len (skipn 4 s)) by (rewrite len_skipn; unfold len in *; lia).
+  set (t := skipn 4 s) in *. clearbody t.
   destruct (negb _ && negb _); cbn [fst]; [discriminate|].
   destruct (Z.eqb_spec (to_signed 16 (dec_int le (firstn 2 s))) PID_SENTINEL) as [E|E]; cbn [fst].
-  - intros H; inversion H; subst; clear H. right. cbn [p_id]. split; [exact E|].
-    unfold len in *. rewrite skipn_length. lia.
-  - set (n := dec_int le (firstn 2 (skipn 2 s))).
-    destruct (Z.ltb_spec (len (skipn 4 s)) n) as [L2|L2]; cbn [fst]; [discriminate|].
-    intros H; inversion H; subst; clear H. left. cbn [p_val].
-    unfold len in *. rewrite firstn_length, !skipn_length in *. lia.
+  - intros H. injection H as H1 H2. subst p s1. right. cbn [p_id]. split; [exact E|exact E4].
+  - set (n := dec_int le (firstn 2 (skipn 2 s))) in *.
+    destruct (Z.ltb_spec (len t) n) as [L2|L2]; cbn [fst]; [discriminate|].
+    intros H. injection H as H1 H2. subst p s1. left. cbn [p_val].
+    rewrite E4. rewrite len_skipn. unfold len in *. rewrite firstn_length. lia.
 Qed.
 
 Lemma read_params_ok : forall le fuel s ps rest, fst (read_params le fuel s) = Ok (ps, rest) ->
@@ -47,14 +53,25 @@ Proof.
       unfold params_wire in *; cbn [map sumZ]. lia.
 Qed.
 
+Strategy expand [read_param_list].
+Lemma read_param_list_ok : forall le s ps rest, fst (read_param_list le s) = Ok (ps, rest) ->
+  params_wire ps + len rest <= len s.
+Proof. intros le s ps rest H. exact (read_params_ok le MAX_PARAMETERS s ps rest H). Qed.
+
 (* ----------------------------------------------------------------- DATA / DATA_FRAG *)
 Lemma dec_int_nonneg : forall le b, bytes_ok b -> 0 <= dec_int le b.
 Proof. intros [] b H; unfold dec_int; [apply dec_le_range|apply dec_be_range]; exact H. Qed.
 
+Lemma read_n_ok : forall n s a s1, fst (read_n n s) = Ok (a, s1) -> a = firstn n s /\ s1 = skipn n s.
+Proof.
+  intros n s a s1. unfold read_n. destruct (shorter s (Z.of_nat n)); cbn [fst]; [discriminate|].
+  intros H. injection H as H1 H2. auto.
+Qed.
 Lemma read_u16_nonneg : forall le s a s1, bytes_ok s -> fst (read_u16 le s) = Ok (a, s1) -> 0 <= a.
 Proof.
-  intros le s a s1 Hb H. unfold read_u16, pbind, read_n in H. destruct (shorter s (Z.of_nat 2)); cbn in H; [discriminate|].
-  inversion H; subst. apply dec_int_nonneg, bytes_ok_firstn, Hb.
+  intros le s a s1 Hb H. unfold read_u16 in H. apply pbind_inv_ok in H as (b & s2 & H1 & H2).
+  apply read_n_ok in H1 as [-> _]. unfold pret in H2. cbn [fst] in H2. injection H2 as H2 _. subst a.
+  apply dec_int_nonneg. change (bytes_ok (firstn 2 s)). apply bytes_ok_firstn, Hb.
 Qed.
 Lemma consumes_read_u16 : forall le, consumes (read_u16 le) 2.
 Proof. intros; unfold read_u16; apply consumes_pret_bind, consumes_read_n. Qed.
@@ -65,11 +82,11 @@ Proof.
   intros data endp o2q H1 H2. unfold len. rewrite firstn_length. lia.
 Qed.
 
-Lemma data_mem : forall fl sublen data sm, bytes_ok data ->
+Lemma data_mem : forall fl sublen data sm, bytes_ok data -> 0 <= sublen ->
   fst (parse_data fl sublen data) = Ok sm ->
   is_data sm = true /\ sub_mem sm <= 104 + 10 * (if sublen =? 0 then len data else sublen).
 Proof.
-  intros fl sublen data sm Hb. unfold parse_data. rewrite shorter_spec.
+  intros fl sublen data sm Hb Hs0. unfold parse_data. set (dk := flag fl 2 || flag fl 3). clearbody dk. rewrite shorter_spec.
   destruct (Z.ltb_spec (len data) sublen) as [L|L]; cbn [fst]; [discriminate|].
   match goal with |- context [match ?X with _ => _ end] => destruct X as [r0 c0] eqn:E0 end.
   destruct r0 as [[[[[o2q rid] wid] sn] s1]|?|?]; cbn [fst]; try discriminate.
@@ -80,32 +97,30 @@ Proof.
     apply pbind_inv_ok in F0 as (x & t1 & H1 & F0). apply consumes_read_u16 in H1 as [-> _].
     apply pbind_inv_ok in F0 as (o & t2 & H2 & F0). apply read_u16_nonneg in H2; [|apply bytes_ok_skipn; exact Hb].
     apply pbind_inv_ok in F0 as (a & t3 & _ & F0). apply pbind_inv_ok in F0 as (b & t4 & _ & F0).
-    apply pbind_inv_ok in F0 as (c & t5 & _ & F0). cbn in F0. inversion F0; subst. lia. }
+    apply pbind_inv_ok in F0 as (c & t5 & _ & F0). unfold pret in F0. cbn [fst] in F0. inversion F0; subst. lia. }
   cbv zeta.
   set (endp := if sublen =? 0 then len data else sublen).
-  assert (He : 0 <= endp) by (unfold endp; destruct (sublen =? 0) eqn:Es; [apply len_nonneg|pose proof (len_nonneg _ data); lia]).
-  assert (He' : 0 <= endp -> True) by auto.
+  assert (He : 0 <= endp) by (unfold endp; destruct (sublen =? 0) eqn:Es; [apply len_nonneg|lia]).
   destruct (Z.ltb_spec endp o2q) as [L2|L2]; cbn [fst]; [discriminate|].
   pose proof (region_len data endp o2q Ho He) as Hr.
   set (region := firstn (Z.to_nat (endp - o2q)) (skipn (Z.to_nat o2q) data)) in *.
   destruct (flag fl 1).
-  - destruct (read_param_list (is_le fl) region) as [r1 c1] eqn:E1.
-    destruct r1 as [[qos rest]|?|?]; cbn [fst]; try discriminate.
-    intros H; inversion H; subst; clear H. split; [reflexivity|].
-    assert (F1 : fst (read_param_list (is_le fl) region) = Ok (qos, rest)) by (rewrite E1; reflexivity).
-    apply read_params_ok in F1. pose proof (params_mem_wire qos). cbn [sub_mem]. unfold SUB_SIZE, ARC_HDR.
+  - pose proof (read_param_list_ok (is_le fl) region) as F1.
+    destruct (read_param_list (is_le fl) region) as [[[qos rest]|?|?] c1]; cbn [fst]; try discriminate.
+    intros H; injection H as H; subst sm. split; [reflexivity|].
+    specialize (F1 qos rest eq_refl). pose proof (params_mem_wire qos). unfold sub_mem, SUB_SIZE, ARC_HDR.
     pose proof (len_nonneg _ rest).
-    destruct (flag fl 2 || flag fl 3); [|change (len (@nil Z)) with 0]; lia.
-  - cbn [fst]. intros H; inversion H; subst; clear H. split; [reflexivity|].
-    cbn [sub_mem map sumZ]. unfold SUB_SIZE, ARC_HDR.
-    destruct (flag fl 2 || flag fl 3); [|change (len (@nil Z)) with 0]; lia.
+    destruct dk; [|change (len (@nil Z)) with 0]; lia.
+  - cbn [fst]. intros H; injection H as H; subst sm. split; [reflexivity|].
+    unfold sub_mem, SUB_SIZE, ARC_HDR. cbn [map sumZ].
+    destruct dk; [|change (len (@nil Z)) with 0]; lia.
 Qed.
 
-Lemma data_frag_mem : forall fl sublen data sm, bytes_ok data ->
+Lemma data_frag_mem : forall fl sublen data sm, bytes_ok data -> 0 <= sublen ->
   fst (parse_data_frag fl sublen data) = Ok sm ->
   is_data sm = true /\ sub_mem sm <= 104 + 10 * (if sublen =? 0 then len data else sublen).
 Proof.
-  intros fl sublen data sm Hb. unfold parse_data_frag. rewrite !shorter_spec.
+  intros fl sublen data sm Hb Hs0. unfold parse_data_frag. rewrite !shorter_spec.
   destruct (Z.ltb_spec (len data) sublen) as [L|L]; cbn [fst]; [discriminate|].
   destruct (Z.ltb_spec (len data) 32) as [L3|L3]; cbn [fst]; [discriminate|].
   match goal with |- context [match ?X with _ => _ end] => destruct X as [r0 c0] eqn:E0 end.
@@ -121,20 +136,253 @@ Proof.
     apply pbind_inv_ok in F0 as (a & t3 & _ & F0). apply pbind_inv_ok in F0 as (b & t4 & _ & F0).
     apply pbind_inv_ok in F0 as (c & t5 & _ & F0). apply pbind_inv_ok in F0 as (d & t6 & _ & F0).
     apply pbind_inv_ok in F0 as (g & t7 & _ & F0). apply pbind_inv_ok in F0 as (i & t8 & _ & F0).
-    apply pbind_inv_ok in F0 as (j & t9 & _ & F0). cbn in F0. inversion F0; subst. lia. }
+    apply pbind_inv_ok in F0 as (j & t9 & _ & F0). unfold pret in F0. cbn [fst] in F0. inversion F0; subst. lia. }
   cbv zeta.
   set (endp := if sublen =? 0 then len data else sublen).
-  assert (He : 0 <= endp) by (unfold endp; destruct (sublen =? 0) eqn:Es; [apply len_nonneg|pose proof (len_nonneg _ data); lia]).
+  assert (He : 0 <= endp) by (unfold endp; destruct (sublen =? 0) eqn:Es; [apply len_nonneg|lia]).
   destruct (Z.ltb_spec endp o2q) as [L2|L2]; cbn [fst]; [discriminate|].
   pose proof (region_len data endp o2q Ho He) as Hr.
   set (region := firstn (Z.to_nat (endp - o2q)) (skipn (Z.to_nat o2q) data)) in *.
   destruct (flag fl 1).
-  - destruct (read_param_list (is_le fl) region) as [r1 c1] eqn:E1.
-    destruct r1 as [[qos rest]|?|?]; cbn [fst]; try discriminate.
-    intros H; inversion H; subst; clear H. split; [reflexivity|].
-    assert (F1 : fst (read_param_list (is_le fl) region) = Ok (qos, rest)) by (rewrite E1; reflexivity).
-    apply read_params_ok in F1. pose proof (params_mem_wire qos). cbn [sub_mem]. unfold SUB_SIZE, ARC_HDR.
+  - pose proof (read_param_list_ok (is_le fl) region) as F1.
+    destruct (read_param_list (is_le fl) region) as [[[qos rest]|?|?] c1]; cbn [fst]; try discriminate.
+    intros H; injection H as H; subst sm. split; [reflexivity|].
+    specialize (F1 qos rest eq_refl). pose proof (params_mem_wire qos). unfold sub_mem, SUB_SIZE, ARC_HDR.
     pose proof (len_nonneg _ rest). lia.
-  - cbn [fst]. intros H; inversion H; subst; clear H. split; [reflexivity|].
-    cbn [sub_mem map sumZ]. unfold SUB_SIZE, ARC_HDR. lia.
+  - cbn [fst]. intros H; injection H as H; subst sm. split; [reflexivity|].
+    unfold sub_mem, SUB_SIZE, ARC_HDR. cbn [map sumZ]. lia.
+Qed.
+
+(* ------------------------------------------------------------------ INFO_REPLY *)
+Lemma consumes_read_locator : forall le, consumes (read_locator le) 24.
+Proof.
+  intros; unfold read_locator. apply (consumes_bind _ _ _ _ 4 20); [apply consumes_read_i32|intros].
+  apply (consumes_bind _ _ _ _ 4 16); [apply consumes_read_u32|intros].
+  apply consumes_pret_bind, consumes_read_n.
+Qed.
+
+Lemma read_locs_ok : forall le k s ls s1, fst (read_locs le k s) = Ok (ls, s1) ->
+  length ls = k /\ s1 = skipn (24 * k) s /\ 24 * Z.of_nat k <= len s.
+Proof.
+  intros le k; induction k as [|k IH]; intros s ls s1 H.
+  - cbn [read_locs] in H. apply pret_ok in H as [-> ->]. repeat split. unfold len; lia.
+  - cbn [read_locs] in H. apply pbind_inv_ok in H as (l & t1 & H1 & H).
+    apply consumes_read_locator in H1 as [-> L1].
+    apply pbind_inv_ok in H as (u & t2 & H2 & H). apply ptick_ok in H2. subst t2.
+    apply pbind_inv_ok in H as (ls' & t3 & H3 & H). apply pret_ok in H as [H4 H5]. subst ls s1.
+    apply IH in H3 as (E1 & E2 & L2). cbn [length]. split; [lia|]. split.
+    + rewrite E2, skipn_skipn. f_equal. lia.
+    + rewrite len_skipn in L2. unfold len in *. lia.
+Qed.
+
+Lemma read_locator_list_ok : forall le s ls s1, bytes_ok s -> fst (read_locator_list le s) = Ok (ls, s1) ->
+  let n := dec_int le (firstn 4 s) in
+  len ls = n /\ s1 = skipn (Z.to_nat (4 + 24 * n)) s /\ 4 <= len s /\ 0 <= n.
+Proof.
+  intros le s ls s1 Hb H. unfold read_locator_list in H.
+  apply pbind_inv_ok in H as (n & s' & H1 & H2).
+  pose proof (read_u32_value _ _ _ _ H1) as En. apply consumes_read_u32 in H1 as [-> L1].
+  apply read_locs_ok in H2 as (E1 & E2 & L2). cbv zeta. rewrite <- En.
+  assert (Hn : 0 <= n).
+  { rewrite En. apply dec_int_nonneg. apply bytes_ok_firstn; exact Hb. }
+  set (t := skipn 4 s) in *.
+  assert (Ek : Z.to_nat (Z.min n (len t / 24 + 1)) = Z.to_nat n).
+  { pose proof (len_nonneg _ t). lia. }
+  rewrite Ek in *. split; [unfold len; lia|]. split; [|split; [exact L1|exact Hn]].
+  rewrite E2. unfold t. rewrite skipn_skipn. f_equal. lia.
+Qed.
+
+Lemma run_ok_inv : forall A (p : parser A) v a, fst (run p v) = Ok a -> exists s, fst (p v) = Ok (a, s).
+Proof.
+  intros A p v a. unfold run. destruct (p v) as [[[x s]|e|y] c]; cbn [fst]; intros H; try discriminate.
+  injection H as ->. exists s; reflexivity.
+Qed.
+
+Lemma info_reply_mem : forall fl sublen v sm, bytes_ok v -> 0 <= sublen ->
+  fst (parse_info_reply fl v) = Ok sm ->
+  locs_overread (is_le fl) (flag fl 1) sublen v = false ->
+  is_data sm = false /\ sub_mem sm <= 88 + 2 * sublen.
+Proof.
+  intros fl sublen v sm Hb Hs H Ho. unfold parse_info_reply in H. apply run_ok_inv in H as (s & H).
+  apply pbind_inv_ok in H as (u & s1 & H1 & H).
+  apply read_locator_list_ok in H1 as (Eu & Es1 & L1 & Hn1); [|exact Hb]. cbv zeta in *.
+  apply pbind_inv_ok in H as (m & s2 & H2 & H). apply pret_ok in H as [H3 _]. subst sm.
+  split; [reflexivity|]. unfold sub_mem, SUB_SIZE, LOC_SIZE.
+  unfold locs_overread in Ho. rewrite !shorter_spec in Ho.
+  destruct (Z.ltb_spec (len v) 4) as [|_]; [lia|].
+  destruct (Z.ltb_spec sublen (24 * dec_int (is_le fl) (firstn 4 v))) as [|L2]; [discriminate|].
+  destruct (flag fl 1); cbn [negb] in Ho.
+  - rewrite <- Es1 in Ho.
+    apply read_locator_list_ok in H2 as (Em & _ & L3 & Hn2); [|subst s1; apply bytes_ok_skipn; exact Hb]. cbv zeta in *.
+    destruct (Z.ltb_spec (len s1) 4) as [|_]; [lia|].
+    apply Z.ltb_ge in Ho. lia.
+  - apply pret_ok in H2 as [H2 _]. subst m. change (len (@nil locator)) with 0. lia.
+Qed.
+
+(* ------------------------------------------------------ the fixed-size submessages *)
+Definition yields {A} (p : parser A) (P : A -> Prop) : Prop :=
+  forall s a s1, fst (p s) = Ok (a, s1) -> P a.
+Lemma yields_bind : forall A B (p : parser A) (f : A -> parser B) P,
+  (forall a, yields (f a) P) -> yields (pbind p f) P.
+Proof. intros A B p f P H s b s2 Hb. apply pbind_inv_ok in Hb as (a & s1 & _ & H2). eapply H; eauto. Qed.
+Lemma yields_pret : forall A (a : A) (P : A -> Prop), P a -> yields (pret a) P.
+Proof. intros A a P H s b s1 Hb. apply pret_ok in Hb as [-> _]. exact H. Qed.
+
+Definition small (sm : psub) : Prop := is_data sm = false /\ sub_mem sm = 88.
+Ltac yields_small := repeat (apply yields_bind; intros ?); apply yields_pret; split; reflexivity.
+
+Lemma run_yields : forall A (p : parser A) (P : A -> Prop) v a, yields p P -> fst (run p v) = Ok a -> P a.
+Proof. intros A p P v a Hy H. apply run_ok_inv in H as (s & H). eapply Hy; eauto. Qed.
+
+Lemma acknack_small : forall fl v sm, fst (parse_acknack fl v) = Ok sm -> small sm.
+Proof. intros fl v sm H. unfold parse_acknack in H. eapply run_yields; [|exact H]. yields_small. Qed.
+Lemma gap_small : forall fl v sm, fst (parse_gap fl v) = Ok sm -> small sm.
+Proof. intros fl v sm H. unfold parse_gap in H. eapply run_yields; [|exact H]. yields_small. Qed.
+Lemma heartbeat_small : forall fl v sm, fst (parse_heartbeat fl v) = Ok sm -> small sm.
+Proof. intros fl v sm H. unfold parse_heartbeat in H. eapply run_yields; [|exact H]. yields_small. Qed.
+Lemma heartbeat_frag_small : forall fl v sm, fst (parse_heartbeat_frag fl v) = Ok sm -> small sm.
+Proof. intros fl v sm H. unfold parse_heartbeat_frag in H. eapply run_yields; [|exact H]. yields_small. Qed.
+Lemma nack_frag_small : forall fl v sm, fst (parse_nack_frag fl v) = Ok sm -> small sm.
+Proof. intros fl v sm H. unfold parse_nack_frag in H. eapply run_yields; [|exact H]. yields_small. Qed.
+Lemma info_dst_small : forall fl v sm, fst (parse_info_dst fl v) = Ok sm -> small sm.
+Proof. intros fl v sm H. unfold parse_info_dst in H. eapply run_yields; [|exact H]. yields_small. Qed.
+Lemma info_src_small : forall fl v sm, fst (parse_info_src fl v) = Ok sm -> small sm.
+Proof. intros fl v sm H. unfold parse_info_src in H. eapply run_yields; [|exact H]. yields_small. Qed.
+Lemma info_ts_small : forall fl v sm, fst (parse_info_ts fl v) = Ok sm -> small sm.
+Proof.
+  intros fl v sm H. unfold parse_info_ts in H. destruct (flag fl 1).
+  - cbn [fst] in H. injection H as <-. split; reflexivity.
+  - eapply run_yields; [|exact H]. yields_small.
+Qed.
+
+(* ------------------------------------------------------------------ one submessage *)
+Definition over_bad (x : Z * Z * Z * list Z) : bool :=
+  match x with (id, fl, sublen, body) =>
+    if id =? ID_INFO_REPLY then locs_overread (is_le fl) (flag fl 1) sublen body else false end.
+
+Lemma parse_sub_mem : forall id fl sublen v sm, bytes_ok v -> 0 <= sublen <= len v ->
+  fst (parse_sub id fl sublen v) = Ok sm -> over_bad (id, fl, sublen, v) = false ->
+  sub_mem sm <= 104 + 10 * (if (sublen =? 0) && is_data sm then len v else sublen).
+Proof.
+  intros id fl sublen v sm Hb Hs H Ho. unfold parse_sub in H. unfold over_bad in Ho.
+  assert (Small : small sm -> sub_mem sm <= 104 + 10 * (if (sublen =? 0) && is_data sm then len v else sublen)).
+  { intros [E1 E2]. rewrite E1, E2, andb_false_r. cbv iota. lia. }
+  assert (Big : is_data sm = true /\ sub_mem sm <= 104 + 10 * (if sublen =? 0 then len v else sublen) ->
+                sub_mem sm <= 104 + 10 * (if (sublen =? 0) && is_data sm then len v else sublen)).
+  { intros [E1 E2]. rewrite E1, andb_true_r. exact E2. }
+  destruct (id =? ID_ACKNACK); [apply Small; eapply acknack_small; eauto|].
+  destruct (id =? ID_DATA); [apply Big; eapply data_mem; eauto; lia|].
+  destruct (id =? ID_DATA_FRAG); [apply Big; eapply data_frag_mem; eauto; lia|].
+  destruct (id =? ID_GAP); [apply Small; eapply gap_small; eauto|].
+  destruct (id =? ID_HEARTBEAT); [apply Small; eapply heartbeat_small; eauto|].
+  destruct (id =? ID_HEARTBEAT_FRAG); [apply Small; eapply heartbeat_frag_small; eauto|].
+  destruct (id =? ID_INFO_DST); [apply Small; eapply info_dst_small; eauto|].
+  destruct (id =? ID_INFO_REPLY).
+  { destruct (info_reply_mem fl sublen v sm Hb ltac:(lia) H Ho) as [E1 E2]. rewrite E1, andb_false_r. cbv iota. lia. }
+  destruct (id =? ID_INFO_SRC); [apply Small; eapply info_src_small; eauto|].
+  destruct (id =? ID_INFO_TS); [apply Small; eapply info_ts_small; eauto|].
+  destruct (id =? ID_NACK_FRAG); [apply Small; eapply nack_frag_small; eauto|].
+  destruct (id =? ID_PAD).
+  - unfold parse_pad in H. cbn [fst] in H. injection H as <-. apply Small. split; reflexivity.
+  - cbn [fst] in H. discriminate.
+Qed.
+
+(* ----------------------------------------------------------------------- the loop *)
+Lemma sub_loop_mem : forall fuel v l, bytes_ok v -> fst (sub_loop fuel v) = Ok l ->
+  existsb over_bad (visits fuel v) = false -> msg_mem l <= 26 * len v.
+Proof.
+  induction fuel as [|k IH]; intros v l Hb H Hv.
+  - cbn [sub_loop fst] in H. injection H as <-. unfold msg_mem; cbn [map sumZ]. pose proof (len_nonneg _ v). lia.
+  - assert (Hnil : msg_mem (@nil psub) <= 26 * len v) by (unfold msg_mem; cbn [map sumZ]; pose proof (len_nonneg _ v); lia).
+    destruct v as [|id [|fl [|b2 [|b3 v']]]]; try (cbn [sub_loop fst] in H; injection H as <-; exact Hnil).
+    cbn [sub_loop visits] in *. cbv zeta in *.
+    set (sublen := sublen_of fl b2 b3) in *.
+    assert (Hb' : bytes_ok v') by (inversion Hb as [|? ? ? Hb1]; inversion Hb1 as [|? ? ? Hb2]; inversion Hb2 as [|? ? ? Hb3]; inversion Hb3; assumption).
+    assert (Hs0 : 0 <= sublen).
+    { inversion Hb as [|? ? ? Hb1]; inversion Hb1 as [|? ? A2 Hb2]; inversion Hb2 as [|? ? A3 Hb3]; inversion Hb3 as [|? ? A4 ?]; subst.
+      unfold sublen, sublen_of, is_byte in *. destruct (is_le fl); lia. }
+    rewrite shorter_spec in *.
+    destruct (Z.ltb_spec (len v') sublen) as [L|L]; [cbn [fst] in H; injection H as <-; exact Hnil|].
+    cbn [existsb] in Hv. apply orb_false_iff in Hv as [Hv1 Hv2].
+    pose proof (parse_sub_mem id fl sublen v') as PM.
+    rewrite !len_cons.
+    destruct (parse_sub id fl sublen v') as [[sm|e|x] c]; cbn [fst] in *.
+    + specialize (PM sm Hb' ltac:(lia) eq_refl Hv1).
+      set (consumed := if (sublen =? 0) && is_data sm then len v' else sublen) in *.
+      assert (Hc : 0 <= consumed <= len v') by (unfold consumed; destruct ((sublen =? 0) && is_data sm); lia).
+      specialize (IH (skipn (Z.to_nat consumed) v')).
+      destruct (sub_loop k (skipn (Z.to_nat consumed) v')) as [[l'|e|x] c']; cbn [fst] in *; try discriminate.
+      injection H as <-. specialize (IH l' ltac:(apply bytes_ok_skipn; exact Hb') eq_refl Hv2).
+      rewrite len_skipn in IH. unfold msg_mem in *. cbn [map sumZ]. unfold len in *. lia.
+    + specialize (IH (skipn (Z.to_nat sublen) v')).
+      destruct (sub_loop k (skipn (Z.to_nat sublen) v')) as [r c']; cbn [fst] in *. subst r.
+      specialize (IH l ltac:(apply bytes_ok_skipn; exact Hb') eq_refl Hv2).
+      pose proof (len_skipn_le _ (Z.to_nat sublen) v'). lia.
+    + discriminate.
+Qed.
+
+(* the memory held by the decoded message: at most 26 bytes per input byte, for every byte
+   string outside the INFO_REPLY over-read class *)
+Theorem decoded_memory_linear : forall v h l, bytes_ok v ->
+  C07_known_overread v = false -> parse_message v = Ok (h, l) -> msg_mem l <= 26 * len v.
+Proof.
+  intros v h l Hb Ho H. unfold parse_message, parse_message_cost in H. unfold C07_known_overread, message_visits in Ho.
+  destruct (shorter v 20); [cbn [fst] in H; discriminate|].
+  destruct (negb (list_eqb (firstn 4 v) RTPS_MAGIC)); [cbn [fst] in H; discriminate|].
+  pose proof (sub_loop_mem MAX_SUBMESSAGES (skipn 20 v)) as SM.
+  destruct (sub_loop MAX_SUBMESSAGES (skipn 20 v)) as [[l'|e|x] c]; cbn [fst] in *; try discriminate.
+  injection H as _ <-. specialize (SM l' ltac:(apply bytes_ok_skipn; exact Hb) eq_refl Ho).
+  pose proof (len_skipn_le _ 20%nat v). lia.
+Qed.
+
+(* ---------------------------------------------------------------------- witnesses *)
+Definition hdr20 : list Z := [82; 84; 80; 83; 2; 3; 1; 2; 0; 1; 2; 3; 4; 5; 6; 7; 8; 9; 10; 11].
+
+(* an 84-byte datagram: NACK_FRAG with numBits = 288 *)
+Definition nackfrag_288 : list Z :=
+  hdr20 ++ [18; 1; 60; 0] ++ [1;2;3;4] ++ [6;7;8;9] ++ [0;0;0;0; 9;0;0;0] ++ [2;0;0;0] ++ [32;1;0;0] ++
+  repeat 0 32 ++ [7;0;0;0].
+
+Lemma fragset_panics :
+  len nackfrag_288 = 84 /\ bytes_ok nackfrag_288 /\ C07_known_fnset nackfrag_288 = true /\
+  parse_message nackfrag_288 = Panic P_FNSET_INDEX.
+Proof.
+  split; [reflexivity|]. split; [apply bytes_okb_true; vm_compute; reflexivity|].
+  split; vm_compute; reflexivity.
+Qed.
+
+(* INFO_REPLY headers every 8 bytes, each announcing as many locators as fit in the rest *)
+Fixpoint reply_chain (k : nat) : list Z :=
+  match k with
+  | O => []
+  | S j => [15; 1; 4; 0] ++ enc_le 4 (8 * Z.of_nat j / 24) ++ reply_chain j
+  end.
+Definition overread_witness : list Z := hdr20 ++ reply_chain 256.
+Definition decoded_mem (v : list Z) : Z := match parse_message v with Ok (_, l) => msg_mem l | _ => 0 end.
+
+Lemma overread_superlinear :
+  len overread_witness = 2068 /\ bytes_ok overread_witness /\ C07_known_overread overread_witness = true /\
+  is_ok (parse_message overread_witness) = true /\ decoded_mem overread_witness = 281608 /\
+  26 * len overread_witness < decoded_mem overread_witness.
+Proof.
+  split; [vm_compute; reflexivity|]. split; [apply bytes_okb_true; vm_compute; reflexivity|].
+  split; [vm_compute; reflexivity|]. split; [vm_compute; reflexivity|].
+  assert (E : decoded_mem overread_witness = 281608) by (vm_compute; reflexivity).
+  split; [exact E|]. rewrite E. vm_compute. reflexivity.
+Qed.
+
+(* DATA headers with submessage_length 0 every 4 bytes: each scans the rest and fails *)
+Fixpoint data0_chain (k : nat) : list Z :=
+  match k with O => [] | S j => [21; 3; 0; 0] ++ data0_chain j end.
+Definition rescan_witness : list Z := hdr20 ++ data0_chain 256.
+
+Lemma rescan_superlinear :
+  len rescan_witness = 1044 /\ bytes_ok rescan_witness /\ C07_known_rescan rescan_witness = true /\
+  C07_known_overread rescan_witness = false /\ is_ok (parse_message rescan_witness) = true /\
+  decoded_mem rescan_witness = 0 /\
+  COST_C * len rescan_witness + COST_K < message_cost rescan_witness.
+Proof.
+  split; [vm_compute; reflexivity|]. split; [apply bytes_okb_true; vm_compute; reflexivity|].
+  split; [vm_compute; reflexivity|]. split; [vm_compute; reflexivity|]. split; [vm_compute; reflexivity|].
+  split; [vm_compute; reflexivity|]. vm_compute. reflexivity.
 Qed.
